@@ -5,10 +5,12 @@ Input lines:  "#case <id>"  resets the engine;  every other line is
 Output: "#case" lines are echoed; one model line per operation.
 -/
 import LA.Drive.Lnk
+import LA.Drive.Acl
 open LA
 
 def engines : List (String × Engine) := [
-  ("lnk", LA.Lnk.engine)
+  ("lnk", LA.Lnk.engine),
+  ("acl", LA.Acl.engine)
 ]
 
 partial def loop (e : Engine) (h : IO.FS.Stream) (out : IO.FS.Stream) (s : e.σ) : IO Unit := do
